@@ -162,11 +162,15 @@ add('at_valueat_index', 'ii: int', '-MAXN - 1 <= ii <= MAXN + 1',
     'if -len(m) <= ii < len(m):\n    return r1 == ("ok", m[ii]) and d.index(m[ii][0]) == (ii % len(m)) and snapshot(d) == before\n'
     'return r1 == ("raises", "IndexError") and snapshot(d) == before',
     'at / value_at / index are consistent with the order')
-add('reverse_sort', 'rev: bool, desc: bool', '',
+add('reverse_sort', 'rev: bool, desc: bool, kf: int, kw: bool', '0 <= kf <= 4',
+    'kf = conc(kf, 0, 4)\n'
+    'f = [None, len, (lambda k: k[0]), (lambda k: KEYS.index(k) % 2), (lambda k: -KEYS.index(k))][kf]\n'
     'if rev:\n    d.reverse(); want = list(reversed(m))\n'
-    'else:\n    d.sort(reverse=desc); want = sorted(m, key=lambda p: p[0], reverse=desc)\n'
+    'elif kf == 0 and not kw:\n    d.sort(reverse=desc); want = sorted(m, key=lambda p: p[0], reverse=desc)\n'
+    'elif kf == 0 and not desc:\n    d.sort(); want = sorted(m, key=lambda p: p[0])\n'
+    'else:\n    d.sort(key=f, reverse=desc); want = sorted(m, key=(None if f is None else (lambda p: f(p[0]))), reverse=desc)\n'
     'return agree(d, want)',
-    'reverse() / sort() reorder keys only')
+    'reverse() / sort(key=..., reverse=...) reorder keys only, like list.sort (stable: tied keys keep their order, also with reverse=True)')
 add('mapping_views', '', '',
     'ok = agree(d, m) and list(iter(d)) == m_keys(m) and list(d.values()) == [v for _, v in m]\n'
     'ok = ok and all((k in d) == (k in m_keys(m)) for k in KEYS[:NK]) and d.get("zz", 5) == 5 and (d == dict(m))\n'
